@@ -174,6 +174,7 @@ theorem writeDatabasePage_ltx (s s' : Eng) (pgno : Nat) (d : ByteArray) (h : wri
   obtain ⟨_, _, h⟩ := M_bind_ok h
   obtain ⟨_, _, h⟩ := M_bind_ok h
   obtain ⟨_, _, h⟩ := M_bind_ok h
+  obtain ⟨_, _, h⟩ := M_bind_ok h
   simp only [pure, Except.pure] at h
   injection h with h
   subst h
